@@ -17,7 +17,8 @@ RULE = ('strings: every string of length 0..5 (quick) / 0..6 (thorough) over the
         'valid / invalid / empty value: if the message is built, every name in its encoded header is grammar-valid. '
         'Non-trivial = the string (or the string with one character deleted) is accepted by at least one recogniser; '
         'distinct = distinct string / constructor case. lookalikes also inserts every ASCII punctuation character and formatting '
-        'snippets (%s, %d, {}, backslash ...) into valid names: verdict and kind of rejection are judged.')
+        'snippets (%s, %d, {}, backslash ...) into valid names: verdict and kind of rejection are judged. ctor_same: one string given '
+        'for two name-carrying arguments of a constructor.')
 ASSUMPTIONS = ['refcodec recognisers are the trusted statement of the grammar (self-tested on every run)']
 
 ALPHABET = ['a', '1', '_', '.', '-', ':', '/', 'é', ' ', '\n']
@@ -310,6 +311,61 @@ def classify_ctor(case):
     return True, [case['cls'], 'valid' if ok else ('empty' if case['value'] == '' else 'invalid')]
 
 
+SAME_VALUES = ['com.my-company.Player', ':1.42', 'a.b', 'a.b.C', 'Ping', 'm_2', '/a/b', '/', 'org.verif.If_1', 'a-b.c', ':1.x-y',
+               '', 'a', '1.2']
+
+
+def enum_ctor_same(tier):
+    """The SAME string given for two name-carrying arguments of one constructor (a service that names its main interface
+    after its bus name; a member called like the path's last element): each argument is judged by its own grammar."""
+    for cls in sorted(CTOR_ARGS):
+        args = CTOR_ARGS[cls]
+        for i, a in enumerate(args):
+            for b in args[i + 1:]:
+                for v in SAME_VALUES:
+                    yield {'cls': cls, 'a': a, 'b': b, 'value': v}
+
+
+def run_ctor_same(case):
+    from txdbus import message as MSG
+    from txdbus.error import MarshallingError
+    cls, a, b, v = case['cls'], case['a'], case['b'], case['value']
+    args = dict(path='/p', member='M', interface='a.b', destination='c.d', error_name='a.b.Err')
+    args[a] = v
+    args[b] = v
+    ok_both = REC[ARG_KIND[a]](v) and REC[ARG_KIND[b]](v) and not ('path' in (a, b) and v == '/org/freedesktop/DBus/Local')
+    try:
+        if cls == 'MethodCall':
+            m = MSG.MethodCallMessage(args['path'], args['member'], interface=args['interface'], destination=args['destination'])
+        elif cls == 'Error':
+            m = MSG.ErrorMessage(args['error_name'], 5, destination=args['destination'])
+        elif cls == 'Signal':
+            m = MSG.SignalMessage(args['path'], args['member'], args['interface'], destination=args['destination'])
+        else:
+            return []
+    except MarshallingError:
+        if ok_both:
+            return [Disc('ctor_same.rejects-valid:%s.%s+%s' % (cls, a, b), 'value %r' % v)]
+        return []
+    except Exception as e:
+        return [Disc('ctor_same.wrong-exception:%s.%s+%s:%s' % (cls, a, b, type(e).__name__), 'value %r: %s' % (v, exc_detail(e)))]
+    out = []
+    try:
+        d = R.decode_message(m.rawMessage, strict=False)
+    except R.RefError as e:
+        return [Disc('ctor_same.unparseable-output:%s' % cls, 'value %r: %s' % (v, e))]
+    for x, code in FIELD_OF.items():
+        if code in d['fields'] and not REC[ARG_KIND[x]](d['fields'][code]):
+            out.append(Disc('ctor_same.invalid-name-emitted:%s.%s(=%s):%s' % (cls, x, b if x == a else a, _why(ARG_KIND[x], d['fields'][code])),
+                            '%s built with %s = %s = %r; header field %d = %r' % (cls, a, b, v, code, d['fields'][code])))
+    return out
+
+
+def classify_ctor_same(case):
+    va, vb = REC[ARG_KIND[case['a']]](case['value']), REC[ARG_KIND[case['b']]](case['value'])
+    return va != vb, [case['cls'], 'valid_for_both' if va and vb else ('valid_for_one' if va or vb else 'valid_for_neither')]
+
+
 SUBCHECKS = [
     Subcheck('strings', run_string, classify_string, enumerate=enum_strings,
              shards={'quick': 4, 'thorough': 16},
@@ -321,4 +377,7 @@ SUBCHECKS = [
              n={'quick': 500, 'thorough': 4000}),
     Subcheck('ctor', run_ctor, classify_ctor, strategy=lambda tier: ctor_case(),
              n={'quick': 500, 'thorough': 4000}),
+    Subcheck('ctor_same', run_ctor_same, classify_ctor_same, enumerate=enum_ctor_same, shards={'quick': 1, 'thorough': 1},
+             exhaustive_note='every constructor x every pair of its name-carrying arguments x 14 strings given for BOTH '
+                             '(valid for one grammar, the other, both, neither)'),
 ]
